@@ -457,7 +457,19 @@ impl<P: Proto> ClientWorld<P> {
                 self.connack_plan = None;
                 self.mon.last_was_error = false;
             }
-            CAct::T(ms) => self.advance(*ms),
+            CAct::T(ms) => {
+                // in slices of 100 ms, the client polled in between: tokio's `advance` jumps,
+                // and a timer overtaken by a jump would be observed late by the whole jump
+                let mut left = *ms;
+                while left > 0 {
+                    let d = left.min(100);
+                    self.advance(d);
+                    left -= d;
+                    if left > 0 {
+                        self.run_client();
+                    }
+                }
+            }
         }
         self.run_client();
     }
